@@ -212,10 +212,34 @@ Definition valid_qwb (large : bool) (q w b : Z) : bool :=
   ((10 <=? w) && (w <=? (if large then 30 else 24)))%Z &&
   (if (q <=? 1)%Z then (b =? w)%Z else if (q <? 4)%Z then (b =? 14)%Z else ((16 <=? b) && (b <=? 24))%Z).
 
+(* the mode matters only through "is it FONT" *)
+Definition mode_class (mode : N) : N := if mode =? 2 then 2 else 0.
+Lemma configure_core_mode q w b mode large q95 hint :
+  configure_core q w b mode large q95 hint = configure_core q w b (mode_class mode) large q95 hint.
+Proof.
+  unfold configure_core, choose_distance_params, mode_class.
+  destruct (mode =? 2); reflexivity.
+Qed.
+
 Definition sweep (hl : N) : bool :=
   forallb (fun large => forallb (fun q => forallb (fun w => forallb (fun b => forallb (fun mode =>
-    implb (valid_qwb large q w b) (config_okb hl large (configure_core q w b mode large false 0)))
-    [0; 1; 2; 3; 4; 5; 6]) (zrange 10 21)) (zrange 10 21)) (zrange 0 12)) [false; true].
+    if valid_qwb large q w b then config_okb hl large (configure_core q w b mode large false 0) else true)
+    [0; 2]) (zrange 10 21)) (zrange 10 21)) (zrange 0 12)) [false; true].
+
+Lemma sweep_sound hl : sweep hl = true -> forall (large : bool) q w b mode,
+  (0 <= q < 12)%Z -> (10 <= w < 31)%Z -> (10 <= b < 31)%Z -> mode = 0 \/ mode = 2 -> valid_qwb large q w b = true ->
+  config_okb hl large (configure_core q w b mode large false 0) = true.
+Proof.
+  intros S large q w b mode Hq Hw Hb Hm Hv. unfold sweep in S.
+  rewrite forallb_forall in S. specialize (S large).
+  assert (Il : In large [false; true]) by (destruct large; cbn; auto).
+  specialize (S Il). rewrite forallb_forall in S. specialize (S q (zrange_In 0 12 q Hq)).
+  rewrite forallb_forall in S. specialize (S w (zrange_In 10 21 w Hw)).
+  rewrite forallb_forall in S. specialize (S b (zrange_In 10 21 b Hb)).
+  rewrite forallb_forall in S.
+  assert (Im : In mode [0; 2]) by (destruct Hm as [-> | ->]; cbn; auto).
+  specialize (S mode Im). rewrite Hv in S. exact S.
+Qed.
 
 Lemma sweep_ok : sweep HQ_HIST_DIST_LEN = true.
 Proof. vm_compute. reflexivity. Qed.
@@ -277,24 +301,16 @@ Proof.
   pose proof (sanitize_lgwin_range (e_lgwin p) (e_large p)) as Hw. fold w in Hw.
   pose proof (compute_lgblock_valid (e_large p) q w (e_lgblock p) Hq Hw) as Hv. fold b in Hv.
   split.
-  - apply config_okb_sound. rewrite config_okb_hasher_irrelevant.
-    pose proof sweep_ok as S. unfold sweep in S.
-    rewrite forallb_forall in S. specialize (S (e_large p)).
-    assert (Il : In (e_large p) [false; true]) by (destruct (e_large p); cbn; auto).
-    specialize (S Il). rewrite forallb_forall in S. specialize (S q (zrange_In 0 12 q ltac:(cbn; lia))).
-    rewrite forallb_forall in S.
-    assert (Iw : In w (zrange 10 21)) by (apply zrange_In; destruct (e_large p); cbn; lia).
-    specialize (S w Iw). rewrite forallb_forall in S.
-    assert (Ib : In b (zrange 10 21)).
-    { apply zrange_In. unfold valid_qwb in Hv. apply andb_true_iff in Hv. destruct Hv as [_ Hv].
-      destruct (Z.leb_spec q 1); [apply Z.eqb_eq in Hv; destruct (e_large p); cbn; lia|].
-      destruct (Z.ltb_spec q 4); [apply Z.eqb_eq in Hv; cbn; lia|].
-      apply andb_true_iff in Hv. destruct Hv as [V1 V2]. apply Z.leb_le in V1. apply Z.leb_le in V2. cbn. lia. }
-    specialize (S b Ib). rewrite forallb_forall in S.
-    assert (Im : In (e_mode p) [0; 1; 2; 3; 4; 5; 6]).
-    { assert (e_mode p = 0 \/ e_mode p = 1 \/ e_mode p = 2 \/ e_mode p = 3 \/ e_mode p = 4 \/ e_mode p = 5 \/ e_mode p = 6) by lia.
-      cbn. intuition. }
-    specialize (S (e_mode p) Im). rewrite Hv in S. exact S.
+  - apply config_okb_sound. rewrite config_okb_hasher_irrelevant. rewrite configure_core_mode.
+    apply (sweep_sound _ sweep_ok).
+    + lia.
+    + destruct (e_large p); lia.
+    + unfold valid_qwb in Hv. apply andb_true_iff in Hv. destruct Hv as [_ Hv].
+      destruct (Z.leb_spec q 1); [apply Z.eqb_eq in Hv; destruct (e_large p); lia|].
+      destruct (Z.ltb_spec q 4); [apply Z.eqb_eq in Hv; lia|].
+      apply andb_true_iff in Hv. destruct Hv as [V1 V2]. apply Z.leb_le in V1. apply Z.leb_le in V2. lia.
+    + unfold mode_class. destruct (e_mode p =? 2); auto.
+    + exact Hv.
   - unfold configure_core. destruct (choose_distance_params q (e_mode p) 0 0) as [np nd].
     destruct (init_distance_params (e_large p) np nd) as [alpha maxd]. cbn [c_quality c_hasher].
     intros H2. apply hasher_known. lia.
